@@ -659,8 +659,16 @@ class _OsShim:
 
     path = _PathShim()
 
+    @staticmethod
+    def stat(path, *a, **kw):
+        """os.stat of a model file: size and modified time (os.path.getmtime is defined as os.stat(path).st_mtime)."""
+        t = cur().getmtime(path)  # raises FileNotFoundError / PermissionError like os.path.getmtime
+        return _os.stat_result((0o100644, 0, 0, 1, 0, 0, 0, int(t), int(t), int(t), float(t), float(t), float(t), int(t * 1e9), int(t * 1e9), int(t * 1e9)))
+
+    lstat = stat
+
     def __getattr__(self, name):
-        if name in ("stat", "lstat", "utime", "truncate", "open", "link", "symlink", "listdir", "scandir", "mkdir",
+        if name in ("utime", "truncate", "open", "link", "symlink", "listdir", "scandir", "mkdir",
                     "makedirs", "rmdir", "removedirs", "chmod", "access", "fsync", "write", "read", "close"):
             raise ModelGap(f"os.{name} is not modelled")
         return getattr(_os, name)
